@@ -12,8 +12,9 @@ import (
 // ---- shared bookkeeping ---------------------------------------------------------------------
 
 type ctx struct {
-	r     *vk.Run
-	count int64
+	r       *vk.Run
+	count   int64
+	verbose bool // replays: print what the library returned
 }
 
 func (c *ctx) flush() {
@@ -91,6 +92,9 @@ func (c *ctx) decode(m *msgType, e int, b []byte, rend bool) (decoded bool) {
 		c.panicked(frame, fmt.Sprintf("%s(%d bytes -> %s) panicked: %s", entryName(e), len(b), name, msg), "decode",
 			decodeCase{name, e, hex.EncodeToString(b)})
 		return false
+	}
+	if c.verbose {
+		fmt.Printf("library: value = %+v, error = %v\n", v, err)
 	}
 	if err != nil {
 		return false
